@@ -1057,15 +1057,42 @@ public:
       return;
     if (isa<LambdaExpr>(S))
       return;
-    for (const Stmt* C : S->children())
-      flatWalk(C, Ev, fnFile, depth + 1);
-    if (isa<Expr>(S) || isa<DeclStmt>(S) || isa<ReturnStmt>(S))
-      emitEvent(S, Ev, fnFile);
-    if (isa<IfStmt>(S) || isa<WhileStmt>(S) || isa<ForStmt>(S) ||
-        isa<DoStmt>(S) || isa<SwitchStmt>(S)) {
+    // structure markers (ph = then / else / body) let a rule rebuild which events are on exclusive branches or inside a
+    // loop, so that an order relation over a pattern does not depend on how the branches are laid out in the text
+    auto mark = [&](const char* ph) {
       json::Object O;
       O["k"]   = "ctl";
       O["cls"] = S->getStmtClassName();
+      O["ph"]  = ph;
+      loc(O, S, fnFile);
+      Ev.push_back(std::move(O));
+    };
+    if (auto* I = dyn_cast<IfStmt>(S)) {
+      flatWalk(I->getInit(), Ev, fnFile, depth + 1);
+      if (I->getConditionVariableDeclStmt())
+        flatWalk(I->getConditionVariableDeclStmt(), Ev, fnFile, depth + 1);
+      else
+        flatWalk(I->getCond(), Ev, fnFile, depth + 1);
+      mark("then");
+      flatWalk(I->getThen(), Ev, fnFile, depth + 1);
+      mark("else");
+      flatWalk(I->getElse(), Ev, fnFile, depth + 1);
+    } else {
+      if (isa<WhileStmt>(S) || isa<ForStmt>(S) || isa<DoStmt>(S) || isa<CXXForRangeStmt>(S))
+        mark("body");
+      if (isa<SwitchStmt>(S))
+        mark("switch");
+      for (const Stmt* C : S->children())
+        flatWalk(C, Ev, fnFile, depth + 1);
+    }
+    if (isa<Expr>(S) || isa<DeclStmt>(S) || isa<ReturnStmt>(S))
+      emitEvent(S, Ev, fnFile);
+    if (isa<IfStmt>(S) || isa<WhileStmt>(S) || isa<ForStmt>(S) ||
+        isa<DoStmt>(S) || isa<SwitchStmt>(S) || isa<CXXForRangeStmt>(S)) {
+      json::Object O;
+      O["k"]   = "ctl";
+      O["cls"] = S->getStmtClassName();
+      O["ph"]  = "end";
       loc(O, S, fnFile);
       Ev.push_back(std::move(O));
     }
